@@ -418,41 +418,7 @@ Proof.
   cbn [nonnil]. rewrite wrap_loop_nil. reflexivity.
 Qed.
 
-(* 6. wrap_lines *)
-Lemma wrap_lines_width : forall W cont first lines out,
-  cont < W -> wrap_lines W cont first lines = Some out -> Forall (fun l => slen l <= W) out.
-Proof.
-  intros W cont first lines. revert first.
-  induction lines as [|l r IH]; intros first out Hc H; simpl in H.
-  - injection H as <-. constructor.
-  - destruct (all_blank (String.concat "" l)); [eapply IH; eauto|].
-    destruct (wrap_chunks W (if first then "" else blanks cont) (blanks cont) l) as [a|] eqn:A; [|discriminate].
-    destruct (wrap_lines W cont first r) as [b|] eqn:B; [|discriminate].
-    injection H as <-. apply Forall_app. split.
-    + assert (Ha : Forall (fun l0 => slen l0 <= W) a).
-      { eapply wrap_width; [| |exact A].
-        * destruct first; [simpl; lia | rewrite slen_blanks; exact Hc].
-        * rewrite slen_blanks; exact Hc. }
-      rewrite Forall_forall in *. intros x Hx. apply filter_In in Hx. apply Ha. tauto.
-    + eapply IH; eauto.
-Qed.
-
-(* no line written by wrap_lines consists of blanks only (such a line would end the block) *)
-Lemma wrap_lines_no_blank_line : forall W cont first lines out,
-  wrap_lines W cont first lines = Some out -> Forall (fun l => all_blank l = false) out.
-Proof.
-  intros W cont first lines. revert first.
-  induction lines as [|l r IH]; intros first out H; simpl in H.
-  - injection H as <-. constructor.
-  - destruct (all_blank (String.concat "" l)); [eapply IH; eauto|].
-    destruct (wrap_chunks W (if first then "" else blanks cont) (blanks cont) l) as [a|] eqn:A; [|discriminate].
-    destruct (wrap_lines W cont first r) as [b|] eqn:B; [|discriminate].
-    injection H as <-. apply Forall_app. split.
-    + rewrite Forall_forall. intros x Hx. apply filter_In in Hx. destruct Hx as [_ Hx].
-      destruct (all_blank x); [discriminate|reflexivity].
-    + eapply IH; eauto.
-Qed.
-
+(* (section 7 precedes section 6 in this file: 6 uses its lemmas) *)
 (* ------------------------------------------------------------------ *)
 (* 7. re-splitting the wrapped lines gives the tokens of the text *)
 
@@ -650,25 +616,301 @@ Proof.
 Qed.
 
 (* ------------------------------------------------------------------ *)
-(* 8. a '$' comment: wrapping turns comment text into data *)
+(* 6. _wrap_line and wrap_lines: totality, width, indentation, no blank-only line *)
 
-(* the text of a physical line before the first '$' (the whole line if there is none) *)
-Fixpoint data_part (l : string) : string :=
-  match l with
-  | EmptyString => ""
-  | String a r => if Ascii.eqb a "$"%char then "" else String a (data_part r)
-  end.
+Lemma WOk_inj : forall a b, WOk a = WOk b -> a = b.
+Proof. intros a b H. injection H as H. exact H. Qed.
 
-Lemma wrap_resplit_comment_refuted :
-  exists W text ls,
-    wrap_chunks W "" (blanks 5) (split_ws text) = Some ls /\
-    List.concat (map (fun l => words (data_part l)) ls) <> words (data_part text).
+Lemma Forall_removelast : forall {A} (P : A -> Prop) (l : list A), Forall P l -> Forall P (removelast l).
 Proof.
-  exists 20, "1 2 $ a long comment that is wrapped",
-    ["1 2 $ a long comment"; "      that is "; "     wrapped"].
-  split; [vm_compute; reflexivity | vm_compute; discriminate].
+  intros A P l H. induction H as [|x l Hx Hl IH]; [constructor|].
+  destruct l as [|y l']; [constructor|]. change (Forall P (x :: removelast (y :: l'))). now constructor.
 Qed.
 
+Lemma Forall_last : forall {A} (P : A -> Prop) (l : list A) d, l <> [] -> Forall P l -> P (List.last l d).
+Proof.
+  intros A P l d Hne H. induction H as [|x l Hx Hl IH]; [congruence|].
+  destruct l as [|y l']; [exact Hx|]. apply IH. discriminate.
+Qed.
+
+Lemma prefix_elim : forall a x, String.prefix a x = true -> exists t, x = a ++ t.
+Proof.
+  induction a as [|c a IH]; intros x H.
+  - exists x. reflexivity.
+  - destruct x as [|d x]; [discriminate|]. simpl in H.
+    destruct (ascii_dec c d) as [->|N]; [|discriminate].
+    apply IH in H. destruct H as [t ->]. exists t. reflexivity.
+Qed.
+
+Lemma prefix_app_r : forall a x y, String.prefix a x = true -> String.prefix a (x ++ y) = true.
+Proof.
+  intros a x y H. apply prefix_elim in H. destruct H as [t ->].
+  rewrite app_assoc_s. apply prefix_app.
+Qed.
+
+Lemma prefix_trans_app : forall a b x, String.prefix (a ++ b) x = true -> String.prefix a x = true.
+Proof.
+  intros a b x H. apply prefix_elim in H. destruct H as [t ->].
+  rewrite app_assoc_s. apply prefix_app.
+Qed.
+
+Lemma half_le : forall W, Nat.div W 2 <= W.
+Proof. intros W. apply Nat.div_le_upper_bound; lia. Qed.
+
+Lemma slen_dollar_si : forall si, slen (dollar_si si) = slen si + 2.
+Proof. intros si. unfold dollar_si. rewrite slen_app. reflexivity. Qed.
+
+(* the lines of a non-empty chunk list of non-empty chunks are not the empty list *)
+Lemma wrap_chunks_nonnil : forall W ii si chunks ls,
+  chunks <> [] -> Forall (fun c => c <> "") chunks ->
+  wrap_chunks W ii si chunks = Some ls -> ls <> [].
+Proof.
+  intros W ii si chunks ls Hne Hall H. apply wrap_content in H.
+  destruct H as (bodies & Hb & Hc). intros ->.
+  destruct bodies as [|b0 bs]; [|discriminate].
+  destruct chunks as [|c r]; [congruence|].
+  inversion Hall as [|c' r' Hc' _]; subst.
+  rewrite concat_cons in Hc. simpl in Hc. destruct c; [congruence | discriminate].
+Qed.
+
+(* the side condition of the width theorem: when the text before the first '$' is blank it is used as part of
+   the indent of the first comment line, and must leave room on the line *)
+Definition blank_data_fits (W : nat) (ii line : string) : Prop :=
+  all_pyspace (before_dollar line) = true -> slen ii + slen (before_dollar line) < W.
+
+Definition chunks_ok (l : src_line) : Prop :=
+  Forall (fun c => c <> "") (l_chunks l) /\ Forall (fun c => c <> "") (l_data_chunks l) /\
+  Forall (fun c => c <> "") (l_comment_chunks l) /\
+  (all_pyspace (before_dollar (l_text l)) = false -> l_data_chunks l <> []).
+
+(* 6a. _wrap_line returns (no IndexError, the fuel of the model suffices) *)
+Lemma wrap_line_total : forall W ii si l,
+  2 < W -> slen ii < W -> slen si + 2 < W -> blank_data_fits W ii (l_text l) -> chunks_ok l ->
+  exists out, wrap_line W ii si l = WOk out.
+Proof.
+  intros W ii si l HW Hii Hsi Hfit (Hc1 & Hc2 & Hc3 & Hc4). unfold wrap_line.
+  assert (Hplain : exists out, of_opt (wrap_chunks W ii si (l_chunks l)) = WOk out).
+  { pose proof (wrap_fuel_enough W ii si (l_chunks l) Hii ltac:(lia) Hc1) as F.
+    destruct (wrap_chunks W ii si (l_chunks l)) as [ls|]; [exists ls; reflexivity | congruence]. }
+  destruct (Nat.leb (slen ii + slen (l_text l)) W); [exact Hplain|].
+  destruct (is_comment (l_text l)).
+  { pose proof (wrap_fuel_enough W ii comment_si (l_chunks l) Hii ltac:(unfold comment_si, slen; simpl; lia) Hc1) as F.
+    destruct (wrap_chunks W ii comment_si (l_chunks l)) as [ls|]; [exists ls; reflexivity | congruence]. }
+  destruct (negb (has_char dollar (l_text l))); [exact Hplain|].
+  assert (Hsi' : slen (dollar_si si) < W) by (rewrite slen_dollar_si; lia).
+  destruct (all_pyspace (before_dollar (l_text l))) eqn:Eb; cbn [negb].
+  - assert (Hi : slen (ii ++ before_dollar (l_text l)) < W) by (rewrite slen_app; apply Hfit; exact Eb).
+    pose proof (wrap_fuel_enough W _ (dollar_si si) (l_comment_chunks l) Hi Hsi' Hc3) as F.
+    destruct (wrap_chunks W (ii ++ before_dollar (l_text l)) (dollar_si si) (l_comment_chunks l)) as [ls|];
+      [exists ls; reflexivity | congruence].
+  - pose proof (wrap_fuel_enough W ii si (l_data_chunks l) Hii ltac:(lia) Hc2) as F.
+    destruct (wrap_chunks W ii si (l_data_chunks l)) as [ret|] eqn:R; [|congruence].
+    pose proof (wrap_chunks_nonnil _ _ _ _ _ (Hc4 eq_refl) Hc2 R) as Hne.
+    destruct ret as [|r0 rs]; [congruence|].
+    destruct (Nat.leb (slen (List.last (r0 :: rs) "") + slen (from_dollar (l_text l))) W); [eexists; reflexivity|].
+    destruct (Nat.ltb (slen (List.last (r0 :: rs) "")) (Nat.div W 2)) eqn:Eh.
+    + apply Nat.ltb_lt in Eh. pose proof (half_le W) as Hh.
+      pose proof (wrap_fuel_enough W (List.last (r0 :: rs) "") (dollar_si si) (l_comment_chunks l)
+                    ltac:(lia) Hsi' Hc3) as F2.
+      destruct (wrap_chunks W (List.last (r0 :: rs) "") (dollar_si si) (l_comment_chunks l)) as [ls|];
+        [eexists; reflexivity | congruence].
+    + pose proof (wrap_fuel_enough W si (dollar_si si) (l_comment_chunks l) ltac:(lia) Hsi' Hc3) as F2.
+      destruct (wrap_chunks W si (dollar_si si) (l_comment_chunks l)) as [ls|];
+        [eexists; reflexivity | congruence].
+Qed.
+
+(* 6b. every line _wrap_line returns fits the limit *)
+Lemma wrap_line_width : forall W ii si l out,
+  2 < W -> slen ii < W -> slen si + 2 < W -> blank_data_fits W ii (l_text l) ->
+  wrap_line W ii si l = WOk out -> Forall (fun x => slen x <= W) out.
+Proof.
+  intros W ii si l out HW Hii Hsi Hfit H. unfold wrap_line in H.
+  assert (Hplain : of_opt (wrap_chunks W ii si (l_chunks l)) = WOk out -> Forall (fun x => slen x <= W) out).
+  { intros E. destruct (wrap_chunks W ii si (l_chunks l)) as [ls|] eqn:R; [|discriminate].
+    apply WOk_inj in E; subst out. apply (wrap_width W ii si _ _ Hii ltac:(lia) R). }
+  destruct (Nat.leb (slen ii + slen (l_text l)) W); [exact (Hplain H)|].
+  destruct (is_comment (l_text l)).
+  { destruct (wrap_chunks W ii comment_si (l_chunks l)) as [ls|] eqn:R; [|discriminate].
+    apply WOk_inj in H; subst out. apply (wrap_width W ii comment_si _ _ Hii ltac:(unfold comment_si, slen; simpl; lia) R). }
+  destruct (negb (has_char dollar (l_text l))); [exact (Hplain H)|].
+  assert (Hsi' : slen (dollar_si si) < W) by (rewrite slen_dollar_si; lia).
+  destruct (all_pyspace (before_dollar (l_text l))) eqn:Eb; cbn [negb] in H.
+  - destruct (wrap_chunks W (ii ++ before_dollar (l_text l)) (dollar_si si) (l_comment_chunks l)) as [ls|] eqn:R;
+      [|discriminate].
+    apply WOk_inj in H; subst out. refine (wrap_width W _ _ _ _ _ Hsi' R).
+    rewrite slen_app. apply Hfit. exact Eb.
+  - destruct (wrap_chunks W ii si (l_data_chunks l)) as [ret|] eqn:R; [|discriminate].
+    destruct ret as [|r0 rs]; [discriminate|].
+    assert (Hret : Forall (fun x => slen x <= W) (r0 :: rs))
+      by (apply (wrap_width W ii si _ _ Hii ltac:(lia) R)).
+    set (ret := r0 :: rs) in *.
+    destruct (Nat.leb (slen (List.last ret "") + slen (from_dollar (l_text l))) W) eqn:Ea.
+    + apply WOk_inj in H; subst out. apply Nat.leb_le in Ea. apply Forall_app. split.
+      * apply Forall_removelast. exact Hret.
+      * constructor; [rewrite slen_app; exact Ea | constructor].
+    + destruct (Nat.ltb (slen (List.last ret "")) (Nat.div W 2)) eqn:Eh.
+      * apply Nat.ltb_lt in Eh. pose proof (half_le W) as Hh.
+        destruct (wrap_chunks W (List.last ret "") (dollar_si si) (l_comment_chunks l)) as [ls|] eqn:R2; [|discriminate].
+        apply WOk_inj in H; subst out. apply Forall_app. split; [apply Forall_removelast; exact Hret|].
+        refine (wrap_width W _ _ _ _ _ Hsi' R2). lia.
+      * destruct (wrap_chunks W si (dollar_si si) (l_comment_chunks l)) as [ls|] eqn:R2; [|discriminate].
+        apply WOk_inj in H; subst out. apply Forall_app. split; [exact Hret|].
+        refine (wrap_width W _ _ _ _ _ Hsi' R2). lia.
+Qed.
+
+(* ... and without the side condition it is false: blank text of the width of the line before a '$' *)
+Definition plain_line (line : string) : src_line :=
+  SrcLine line (split_ws line) (split_ws (before_dollar line)) (split_ws (from_dollar line)).
+
+Lemma wrap_line_width_refuted :
+  exists W ii si l out,
+    7 < W /\ slen ii < W /\ slen si + 2 < W /\ wrap_line W ii si l = WOk out /\
+    ~ Forall (fun x => slen x <= W) out.
+Proof.
+  exists 20, "", (blanks 5), (plain_line (blanks 22 ++ "$ x y")),
+    [blanks 22 ++ "$"; "     $  x y"].
+  split; [lia|]. split; [simpl; lia|]. split; [simpl; lia|].
+  split; [vm_compute; reflexivity|].
+  intros F. inversion F as [|x xs Hx _]; subst. vm_compute in Hx. lia.
+Qed.
+
+(* 6c. indentation: the first line starts with the initial indent; every other line starts with the continuation
+   indent, or is a "c " line that continues a line MontePy takes for a comment line *)
+Definition cont_ok (si line x : string) : Prop :=
+  String.prefix si x = true \/ (is_comment line = true /\ String.prefix comment_si x = true).
+
+Lemma wrap_line_indent : forall W ii si l out,
+  wrap_line W ii si l = WOk out ->
+  match out with
+  | [] => True
+  | l0 :: rest => String.prefix ii l0 = true /\ Forall (cont_ok si (l_text l)) rest
+  end.
+Proof.
+  intros W ii si l out H. unfold wrap_line in H.
+  assert (Hplain : of_opt (wrap_chunks W ii si (l_chunks l)) = WOk out ->
+                   match out with
+                   | [] => True
+                   | l0 :: rest => String.prefix ii l0 = true /\ Forall (cont_ok si (l_text l)) rest
+                   end).
+  { intros E. destruct (wrap_chunks W ii si (l_chunks l)) as [ls|] eqn:R; [|discriminate E].
+    apply WOk_inj in E; subst out. apply wrap_indent in R. destruct ls as [|l0 rest]; [exact I|].
+    destruct R as [R1 R2]. split; [exact R1|]. eapply Forall_impl; [|exact R2]. intros x Hx. left. exact Hx. }
+  destruct (Nat.leb (slen ii + slen (l_text l)) W); [exact (Hplain H)|].
+  destruct (is_comment (l_text l)) eqn:Ec.
+  { destruct (wrap_chunks W ii comment_si (l_chunks l)) as [ls|] eqn:R; [|discriminate H].
+    apply WOk_inj in H; subst out. apply wrap_indent in R. destruct ls as [|l0 rest]; [exact I|].
+    destruct R as [R1 R2]. split; [exact R1|]. eapply Forall_impl; [|exact R2]. intros x Hx. right. auto. }
+  destruct (negb (has_char dollar (l_text l))); [exact (Hplain H)|].
+  assert (Hcom : forall ci ls, wrap_chunks W ci (dollar_si si) (l_comment_chunks l) = Some ls ->
+                 match ls with
+                 | [] => True
+                 | c0 :: cs => String.prefix ci c0 = true /\ Forall (cont_ok si (l_text l)) cs
+                 end).
+  { intros ci ls R. apply wrap_indent in R. destruct ls as [|c0 cs]; [exact I|].
+    destruct R as [R1 R2]. split; [exact R1|]. eapply Forall_impl; [|exact R2].
+    intros x Hx. left. eapply prefix_trans_app. exact Hx. }
+  destruct (all_pyspace (before_dollar (l_text l))) eqn:Eb; cbn [negb] in H.
+  - destruct (wrap_chunks W (ii ++ before_dollar (l_text l)) (dollar_si si) (l_comment_chunks l)) as [ls|] eqn:R;
+      [|discriminate H].
+    apply WOk_inj in H; subst out. apply Hcom in R. destruct ls as [|c0 cs]; [exact I|].
+    destruct R as [R1 R2]. split; [eapply prefix_trans_app; exact R1 | exact R2].
+  - destruct (wrap_chunks W ii si (l_data_chunks l)) as [ret|] eqn:R; [|discriminate H].
+    destruct ret as [|r0 rs]; [discriminate H|].
+    apply wrap_indent in R. destruct R as [R1 R2].
+    assert (R2' : Forall (cont_ok si (l_text l)) rs)
+      by (eapply Forall_impl; [|exact R2]; intros x Hx; left; exact Hx).
+    (* the last data line: the first line, or a continuation line *)
+    assert (Hlast : forall t,
+              match List.app (removelast (r0 :: rs)) [List.last (r0 :: rs) "" ++ t] with
+              | [] => True
+              | l0 :: rest => String.prefix ii l0 = true /\ Forall (cont_ok si (l_text l)) rest
+              end).
+    { intros t. destruct rs as [|r1 rs'].
+      - simpl. split; [apply prefix_app_r; exact R1 | constructor].
+      - change (removelast (r0 :: r1 :: rs')) with (r0 :: removelast (r1 :: rs')).
+        change (List.last (r0 :: r1 :: rs') "") with (List.last (r1 :: rs') "").
+        rewrite <- app_comm_cons. split; [exact R1|].
+        apply Forall_app. split; [apply Forall_removelast; exact R2'|].
+        constructor; [|constructor]. left. apply prefix_app_r.
+        apply (Forall_last (fun x => String.prefix si x = true) (r1 :: rs') ""); [discriminate | exact R2]. }
+    destruct (Nat.leb (slen (List.last (r0 :: rs) "") + slen (from_dollar (l_text l))) W).
+    + apply WOk_inj in H; subst out. apply Hlast.
+    + destruct (Nat.ltb (slen (List.last (r0 :: rs) "")) (Nat.div W 2)).
+      * destruct (wrap_chunks W (List.last (r0 :: rs) "") (dollar_si si) (l_comment_chunks l)) as [ls|] eqn:R3;
+          [|discriminate H].
+        apply WOk_inj in H; subst out. pose proof (Hcom _ _ R3) as Hc.
+        destruct ls as [|c0 cs].
+        -- rewrite app_nil_r. destruct rs as [|r1 rs'].
+           ++ exact I.
+           ++ change (removelast (r0 :: r1 :: rs')) with (r0 :: removelast (r1 :: rs')).
+              split; [exact R1 | apply Forall_removelast; exact R2'].
+        -- destruct Hc as [Hc1 Hc2]. apply prefix_elim in Hc1. destruct Hc1 as [t ->].
+           specialize (Hlast t).
+           replace (List.app (removelast (r0 :: rs)) ((List.last (r0 :: rs) "" ++ t) :: cs))
+             with (List.app (List.app (removelast (r0 :: rs)) [List.last (r0 :: rs) "" ++ t]) cs)
+             by (rewrite <- app_assoc; reflexivity).
+           destruct (List.app (removelast (r0 :: rs)) [List.last (r0 :: rs) "" ++ t]) as [|l0 rest] eqn:E.
+           ++ destruct (removelast (r0 :: rs)); discriminate.
+           ++ rewrite <- app_comm_cons. destruct Hlast as [H1 H2]. split; [exact H1|].
+              apply Forall_app. split; assumption.
+      * destruct (wrap_chunks W si (dollar_si si) (l_comment_chunks l)) as [ls|] eqn:R3; [|discriminate H].
+        apply WOk_inj in H; subst out. pose proof (Hcom _ _ R3) as Hc.
+        rewrite <- app_comm_cons. split; [exact R1|].
+        apply Forall_app. split; [exact R2'|].
+        destruct ls as [|c0 cs]; [constructor|].
+        destruct Hc as [Hc1 Hc2]. constructor; [left; exact Hc1 | exact Hc2].
+Qed.
+
+(* 6d. wrap_lines *)
+Definition wres_ok (r : wres) : option (list string) := match r with WOk x => Some x | _ => None end.
+
+Lemma wrap_lines_width : forall W cont (first : bool) lines out,
+  cont + 2 < W ->
+  Forall (fun l => blank_data_fits W (if first then "" else blanks cont) (l_text l)) lines ->
+  wrap_lines W cont first lines = WOk out -> Forall (fun x => slen x <= W) out.
+Proof.
+  intros W cont first lines. revert first.
+  induction lines as [|l r IH]; intros first out Hc Hfit H; simpl in H.
+  - injection H as <-. constructor.
+  - inversion Hfit as [|l' r' Hl Hr]; subst.
+    destruct (all_pyspace (l_text l)); [eapply IH; eauto|].
+    destruct (wrap_line W (if first then "" else blanks cont) (blanks cont) l) as [a| |] eqn:A; try discriminate.
+    destruct (wrap_lines W cont first r) as [b| |] eqn:B; try discriminate.
+    injection H as <-. apply Forall_app. split.
+    + assert (Ha : Forall (fun x => slen x <= W) a).
+      { eapply wrap_line_width; [| | | exact Hl | exact A].
+        * lia.
+        * destruct first; [unfold slen; simpl; lia | rewrite slen_blanks; lia].
+        * rewrite slen_blanks; exact Hc. }
+      rewrite Forall_forall in *. intros x Hx. apply filter_In in Hx. apply Ha. tauto.
+    + eapply IH; eauto.
+Qed.
+
+Lemma all_blank_pyspace : forall x, all_blank x = true -> all_pyspace x = true.
+Proof.
+  induction x as [|a x IH]; intros H; [reflexivity|]. simpl in *.
+  apply andb_true_iff in H. destruct H as [Ha Hx]. apply is_blank_eq in Ha. subst a.
+  rewrite (IH Hx). reflexivity.
+Qed.
+
+(* no line written by wrap_lines consists of blanks only (such a line would end the block) *)
+Lemma wrap_lines_no_blank_line : forall W cont first lines out,
+  wrap_lines W cont first lines = WOk out -> Forall (fun x => all_blank x = false) out.
+Proof.
+  intros W cont first lines. revert first.
+  induction lines as [|l r IH]; intros first out H; simpl in H.
+  - injection H as <-. constructor.
+  - destruct (all_pyspace (l_text l)); [eapply IH; eauto|].
+    destruct (wrap_line W (if first then "" else blanks cont) (blanks cont) l) as [a| |] eqn:A; try discriminate.
+    destruct (wrap_lines W cont first r) as [b| |] eqn:B; try discriminate.
+    injection H as <-. apply Forall_app. split.
+    + rewrite Forall_forall. intros x Hx. apply filter_In in Hx. destruct Hx as [_ Hx].
+      unfold keep_part in Hx. destruct (all_blank x) eqn:E; [|reflexivity].
+      apply all_blank_pyspace in E. rewrite E in Hx. discriminate.
+    + eapply IH; eauto.
+Qed.
+
+(* ------------------------------------------------------------------ *)
 (* 9. non-vacuity *)
 Lemma wrap_width_example :
   wrap_chunks 20 "" (blanks 5) (split_ws "1 0 -1 2 -3 4 -5 6 imp:n=1 vol=12345")
